@@ -71,6 +71,21 @@ theorem additive_fixed_noise_differentiable {n : ℕ} (z : EuclideanSpace ℝ (F
 theorem fading_fixed_differentiable {n : ℕ} (h : ℝ) (z : EuclideanSpace ℝ (Fin n)) :
     Differentiable ℝ (fun x : EuclideanSpace ℝ (Fin n) => h • x + z) := DiffProofs.fading_fixed_differentiable h z
 
+/-- **closed-form derivative of the total-power normalisation**: `Df(x)·v = s·v − (s/(‖x‖²+ε))·⟪x,v⟫·x`,
+`s = sqrt(P/(‖x‖²+ε))` — the value autograd's Jacobian-vector products are compared with -/
+theorem total_power_hasFDerivAt {n : ℕ} (P ε : ℝ) (hP : 0 < P) (hε : 0 < ε) (x : EuclideanSpace ℝ (Fin n)) :
+    HasFDerivAt (fun x : EuclideanSpace ℝ (Fin n) => Real.sqrt (P / (‖x‖ ^ 2 + ε)) • x)
+      (Real.sqrt (P / (‖x‖ ^ 2 + ε)) • ContinuousLinearMap.id ℝ _ +
+        ((-(Real.sqrt (P / (‖x‖ ^ 2 + ε)) / (2 * (‖x‖ ^ 2 + ε)))) • (2 • innerSL ℝ x)).smulRight x) x :=
+  DiffProofs.total_power_hasFDerivAt P ε hP hε x
+
+theorem total_power_fderiv_apply {n : ℕ} (P ε : ℝ) (x v : EuclideanSpace ℝ (Fin n)) :
+    (Real.sqrt (P / (‖x‖ ^ 2 + ε)) • ContinuousLinearMap.id ℝ (EuclideanSpace ℝ (Fin n)) +
+        ((-(Real.sqrt (P / (‖x‖ ^ 2 + ε)) / (2 * (‖x‖ ^ 2 + ε)))) • (2 • innerSL ℝ x)).smulRight x :
+          EuclideanSpace ℝ (Fin n) →L[ℝ] EuclideanSpace ℝ (Fin n)) v =
+      Real.sqrt (P / (‖x‖ ^ 2 + ε)) • v - (Real.sqrt (P / (‖x‖ ^ 2 + ε)) / (‖x‖ ^ 2 + ε) * (inner ℝ x v)) • x :=
+  DiffProofs.total_power_fderiv_apply P ε x v
+
 /-- SNR-parameterised additive noise (fixed unit draw): differentiable at every non-zero input -/
 theorem awgn_snr_differentiableAt {n : ℕ} (z x : EuclideanSpace ℝ (Fin n)) (m : ℕ) (hm : 0 < m) (snr : ℝ) (hs : 0 < snr) (hx : x ≠ 0) :
     DifferentiableAt ℝ (fun x : EuclideanSpace ℝ (Fin n) => x + Real.sqrt (‖x‖ ^ 2 / (m * snr)) • z) x :=
